@@ -63,6 +63,22 @@ def check_property(pid, tier, seed, args, t0):
             o['lemmas_used'] = r['lemmas_used']
             obls.append(o)
 
+    # Loop invariants are attached by loop ordinal.  If a function has another number of loops
+    # than when the baseline was recorded (a comprehension turned into a loop, a loop extracted),
+    # the invariants may sit on the wrong loops: what fails in that function is decided by replay
+    # (weak, 10.3), never reported on the solver's word alone.
+    base_loops = CLI.load_json(CLI.EXPECTED, {}).get('__loops__', {})
+    loops_now = {}
+    for r in results:
+        kind, name = r['task']
+        if kind != 'lemma' and r.get('info') and 'n_loops' in r['info']:
+            loops_now[name] = r['info']['n_loops']
+            if not args.record_expected and name in base_loops \
+                    and base_loops[name] != r['info']['n_loops']:
+                for o in r['obligations']:
+                    o['weak_path'] = True
+                    o['loop_count_changed'] = [base_loops[name], r['info']['n_loops']]
+
     # an obligation that relied on an unproved lemma is undecided
     def lemma_closure_ok(names):
         for n in names:
@@ -109,6 +125,9 @@ def check_property(pid, tier, seed, args, t0):
         # --record-expected runs every function, so `inlined` is the complete set
         prog = RUN._STATE['prog']
         verified_short = set(prog.short(q) for q, c_ in C.CONTRACTS.items() if not c_.trusted)
+        lp = dict(expected_all.get('__loops__', {}))
+        lp.update(loops_now)
+        expected_all['__loops__'] = lp
         expected_all['__context__'] = {
             'inlined': sorted(inlined),
             'modules': PROGRAM.context_hashes(verified_short | set(inlined))}
